@@ -633,7 +633,7 @@ def stream_typed_start(ctx):
     streams do); returns a join function -> (items, results)"""
     import threading
     rng = ctx.subrng('typed')
-    items = c01_calls.lines(rng, ctx.size(16, 300), ctx.size(7, None))
+    items = c01_calls.lines(rng, ctx.size(10, 300), ctx.size(5, None))
     for it in items:
         # thorough: every query at every prefix; the unabridged attribute walk at every prefix for
         # the systematic part
@@ -647,13 +647,13 @@ def stream_typed_start(ctx):
         with open(path, encoding='utf-8') as f:
             c = json.load(f)
         corpus.append({'id': 'k%d' % k, 'stmt': c['stmt'], 'start': c.get('start', 0), 'kinds': c['kinds'],
-                       'full': not ctx.quick, 'heavy_all': True, 'max_results': 5})
+                       'full': not ctx.quick, 'heavy_all': not ctx.quick, 'max_results': ctx.size(3, 5)})
     # a share of the statements: complete text, cursor at every column of the statement; and
     # the statement with one character deleted (a small edit of a valid program: `==` -> `=`,
     # a dropped comma / dot / bracket), cursor at the edit
     extra = []
-    for mode, share in (('cursor', ctx.size(0.1, 0.3)), ('delete', ctx.size(0.12, 0.3))):
-        for it in corpus[:3] + items:
+    for mode, share in (('cursor', ctx.size(0.08, 0.3)), ('delete', ctx.size(0.1, 0.3))):
+        for it in corpus[:ctx.size(1, 3)] + items:
             if it in corpus or rng.random() < share:
                 c = dict(it)
                 c['mode'] = mode
